@@ -173,12 +173,8 @@ func checkDoShutdown(p *Prog, r *Report, ru *Rule, a *connectAnchors) {
 					waits = append(waits, i)
 				}
 			}
-			if st, ok := i.(*ssa.Store); ok {
-				if fv, _ := fieldAddrOf(st.Addr); fv == a.FNoMore {
-					if b, ok := constBool(st.Val); ok && b {
-						stores = append(stores, i)
-					}
-				}
+			if setsNoMore(i, a, 0) {
+				stores = append(stores, i)
 			}
 		})
 		for _, w := range waits {
@@ -201,6 +197,54 @@ func checkDoShutdown(p *Prog, r *Report, ru *Rule, a *connectAnchors) {
 	if 0 == n {
 		ru.Unproven("Do:wg.Wait", token.NoPos, "no wg.Wait on Broker.wg found: shutdown does not wait for attached streams")
 	}
+}
+
+// setsNoMore: the instruction stores noMore=true, or is a synchronous call of
+// a module function (or function literal) which does so before each of its
+// returns.
+func setsNoMore(i ssa.Instruction, a *connectAnchors, depth int) bool {
+	if st, ok := i.(*ssa.Store); ok {
+		if fv, _ := fieldAddrOf(st.Addr); fv == a.FNoMore {
+			if b, ok := constBool(st.Val); ok && b {
+				return true
+			}
+		}
+		return false
+	}
+	call, ok := i.(*ssa.Call)
+	if !ok || depth > 3 {
+		return false
+	}
+	f := call.Common().StaticCallee()
+	if nil == f {
+		f, _ = closureOf(resolveLocalFunc(call.Common().Value))
+	}
+	if nil == f || nil == f.Blocks || !inModule(f) {
+		return false
+	}
+	var sets, rets []ssa.Instruction
+	eachInstr(f, func(j ssa.Instruction) {
+		if isReturn(j) {
+			if nil != f.Recover && j.Block() == f.Recover {
+				return /* reached only when a panic was recovered */
+			}
+			rets = append(rets, j)
+		} else if setsNoMore(j, a, depth+1) {
+			sets = append(sets, j)
+		}
+	})
+	for _, r := range rets {
+		dom := false
+		for _, s := range sets {
+			if instrDominates(s, r) {
+				dom = true
+			}
+		}
+		if !dom {
+			return false
+		}
+	}
+	return 0 != len(rets)
 }
 
 // checkProxiesCancellable covers the two proxies and their goroutines.
